@@ -4,7 +4,7 @@ EXTENDS BufReader
 
 CONSTANTS Sizes,        \* operand sizes n
           Streams,      \* stream lengths S (= position of the source fault)
-          Policies,     \* chunk policy per behaviour: 0 = (0,nil) forever, k>0 = at most k bytes per Read (a huge k = as much as fits)
+          Policies,     \* chunk policy per behaviour: 0 = (0,nil) forever, k>0 = at most k bytes per Read (a huge k = as much as fits), MixedPolicy (= 2; a cfg file cannot hold a negative number) = empty / one byte / all that fits, chosen freely at every Read
           MaxOps,       \* operations per behaviour
           SmallN,       \* largest operand explored under the 1-byte chunk policy
           ByteCaps      \* spare capacities of a bytes-backed reader's slice
@@ -27,13 +27,16 @@ MCInit ==
              /\ R = RInitBytes(S, S + x)
              /\ src = [S |-> S, pos |-> S, failed |-> TRUE, fkind |-> "EOF", withData |-> FALSE]
 
+MixedPolicy == 2
 \* the per-behaviour chunk policy restricts which source outcomes are explored
 PolicyAllows(o, want) ==
-  IF policy = 0 THEN o.m = 0 ELSE o.m = Min(Min(want, SrcLeft), policy)
+  IF policy = 0 THEN o.m = 0
+  ELSE IF policy = MixedPolicy THEN o.m \in {0, 1, Min(want, SrcLeft)}     \* free mixing of empty, one-byte and full reads
+  ELSE o.m = Min(Min(want, SrcLeft), policy)
 
 MCNext ==
   \/ /\ nops < MaxOps /\ nops' = nops + 1
-     /\ \/ \E op \in Ops, n \in Sizes : (policy = 1 => n <= SmallN) /\ Start(op, n)
+     /\ \/ \E op \in Ops, n \in Sizes : (policy \in {1, MixedPolicy} => n <= SmallN) /\ Start(op, n)
            \* (1-byte chunks are explored with small operands only: a 9000-byte
            \*  operand would add 9000-step chains without new behaviour)
         \/ \E op \in Ops \ {"readbinary"} : Start(op, -1)
@@ -60,6 +63,19 @@ View == <<src, R, g.c - g.rmark, g.gaveUp, g.trail, pc, cur.op, cur.n, policy, n
 
 \* Every completed operation is accepted by the abstract contract.
 Inv == TypeOK /\ InSource /\ CursorIsRi /\ ReadLenInv /\ Contract /\ RoomWhenReading /\ NoErrWhenReading
+
+\* Refinement: every step of the detailed model (real growth policy, statistics window, parked buffers) is a step of
+\* the integer core whose invariants Apalache proves for operands, streams and capacities of any size (Ind_BufReader.tla)
+Core == INSTANCE Ind_BufReader WITH
+          GrowCountsRi <- TRUE,
+          base <- R.base, blen <- R.blen, bcap <- R.bcap, ri <- R.ri, err <- R.err, empt <- R.empt,
+          S <- src.S, pos <- src.pos, failed <- src.failed, fkind <- src.fkind, wd <- src.withData,
+          c <- g.c, rmark <- g.rmark, trail <- g.trail, gaveUp <- g.gaveUp, pc <- pc,
+          op <- IF cur.op \in Ops THEN cur.op ELSE "next", n <- cur.n, c0 <- cur.gb.c, gaveUp0 <- cur.gb.gaveUp,
+          rkind <- IF res.op = "none" THEN "none" ELSE IF res.op = "release" THEN "release" ELSE "op",
+          res <- [ok |-> res.ok, start |-> res.start, m |-> res.m, e |-> res.e]
+RefinesCore == Core!Init /\ [][Core!Next]_(Core!cvars)
+CoreInvHolds == Core!IndInv
 
 \* Action properties
 PeekNeverAdvances == [][(pc' = "idle" /\ res'.op = "peek" /\ cur'.op = "peek" /\ pc = "reading") => g'.c = g.c]_mcvars
